@@ -380,3 +380,12 @@ def who_writes_format(ctx):
             ctx.check(bool(before) and not after, R, f'{q.split(".")[-1]}.attrs-after-data', ctx.where(fa, e),
                       found=f'{len(before)} data copies before, {len(after)} after', expected='attributes (with the magic) are copied after the data',
                       reason='an interrupted copy must not already be recognisable as a cooler')
+
+
+_run_core = run
+
+
+def run(ctx):
+    _run_core(ctx)
+    from . import refs_misc
+    refs_misc.run_for(ctx, 'C13')
